@@ -805,6 +805,11 @@ func writeEnum(w *formatting.IndentedWriter, enum *dsl.EnumDefinition) {
 			common.WriteDocstring(w, value.Comment)
 		}
 
+		if len(enum.Values) == 0 && !enum.IsFlags {
+			// a class statement needs a body even when there is nothing to declare
+			w.WriteStringln("pass")
+		}
+
 		if enum.IsFlags {
 			w.WriteStringln("")
 			w.WriteStringln("def __eq__(self, other: object) -> bool:")
